@@ -50,7 +50,7 @@ func (r *CSVRenderer) Render(t *Table, w io.Writer) error {
 		}
 	}
 	writer.Flush()
-	return nil
+	return writer.Error()
 }
 
 func (r *CSVRenderer) renderCell(c cell) (string, error) {
